@@ -823,6 +823,252 @@ fn f7_cases(s: &mut Session) {
 	}
 }
 
+
+// ------------------------------------------------------------------------------------------
+// the two-word protocol under a schedule: real threads, real code, a baton at the yield points
+// (hooks, cfg(kira_verif): ClockShared::fractional_position [= between the two loads of
+// ClockHandle::time], Clock::update_shared between its two stores, ClockHandle::stop between its two)
+// ------------------------------------------------------------------------------------------
+struct Baton {
+	st: Mutex<(Vec<u8>, usize, bool)>, // schedule, position, timed out
+	cv: std::sync::Condvar,
+}
+impl Baton {
+	fn wait_turn(&self, me: u8) {
+		let mut g = self.st.lock().unwrap();
+		loop {
+			if g.1 >= g.0.len() || g.0[g.1] == me || g.2 {
+				return;
+			}
+			let (g2, to) = self.cv.wait_timeout(g, Duration::from_secs(5)).unwrap();
+			g = g2;
+			if to.timed_out() {
+				g.2 = true;
+				self.cv.notify_all();
+				return;
+			}
+		}
+	}
+	fn done_step(&self) {
+		let mut g = self.st.lock().unwrap();
+		g.1 += 1;
+		self.cv.notify_all();
+	}
+}
+static BATON: Mutex<Option<Arc<Baton>>> = Mutex::new(None);
+fn install_hook() {
+	kira::verif::set_yield_hook(Some(Arc::new(|name: &'static str| {
+		let b = BATON.lock().unwrap().clone();
+		if let Some(b) = b {
+			if name.starts_with("ClockHandle::time") || name.starts_with("ClockHandle::stop") {
+				b.done_step();
+				b.wait_turn(1);
+			} else if name.starts_with("Clock::update_shared") {
+				b.done_step();
+				b.wait_turn(0);
+			}
+		}
+	})));
+}
+/// mirror of C05/Shared.v `step` on positions only: which reads overlapped no publication
+fn clean_flags(npubs: usize, prog: &[u8], sched: &[u8]) -> Vec<i128> {
+	let (mut a_left, mut a_pc, mut a_done) = (npubs, false, 0usize);
+	let (mut hi, mut h_pc, mut h_at) = (0usize, false, (0usize, false));
+	let mut flags = vec![];
+	for t in sched {
+		if *t == 0 {
+			if a_left == 0 {
+				continue;
+			}
+			if a_pc {
+				a_pc = false;
+				a_left -= 1;
+				a_done += 1;
+			} else {
+				a_pc = true;
+			}
+		} else {
+			if hi >= prog.len() {
+				continue;
+			}
+			if h_pc {
+				if prog[hi] == 0 {
+					flags.push(if !a_pc && !h_at.1 && h_at.0 == a_done { a_done as i128 } else { -1 });
+				}
+				h_pc = false;
+				hi += 1;
+			} else {
+				h_at = (a_done, a_pc);
+				h_pc = true;
+			}
+		}
+	}
+	flags
+}
+/// Replays a complete schedule (2 steps per publication, 2 per handle operation) on the real code.
+/// `frames[0]` is processed before the schedule starts; publication j shows the time after
+/// frames[0..=j].  Returns (final words, reads) or None on a baton timeout.
+fn replay_schedule(frames: &[usize], prog: &[u8], sched: &[u8]) -> Option<((u64, u64), Vec<(u64, u64)>)> {
+	let mut mgr = simple_manager(512, 16);
+	let mut handle = mgr.add_clock(ClockSpeed::TicksPerSecond(8.0)).unwrap();
+	handle.start();
+	let mut buf = vec![0.0f32; 2 * frames[0]];
+	mgr.backend_mut().r().on_start_processing();
+	mgr.backend_mut().r().process(&mut buf, 2);
+	let baton = Arc::new(Baton { st: Mutex::new((sched.to_vec(), 0, false)), cv: std::sync::Condvar::new() });
+	*BATON.lock().unwrap() = Some(baton.clone());
+	let npubs = frames.len();
+	let mut reads = vec![];
+	std::thread::scope(|sc| {
+		let b0 = baton.clone();
+		let mgr_ref = &mut mgr;
+		sc.spawn(move || {
+			for j in 0..npubs {
+				b0.wait_turn(0);
+				mgr_ref.backend_mut().r().on_start_processing(); // the yield point inside hands the baton over between the stores
+				if j + 1 < npubs {
+					let mut buf = vec![0.0f32; 2 * frames[j + 1]];
+					mgr_ref.backend_mut().r().process(&mut buf, 2);
+				}
+				b0.done_step();
+			}
+		});
+		let b1 = baton.clone();
+		let h = &mut handle;
+		let reads_ref = &mut reads;
+		sc.spawn(move || {
+			for o in prog {
+				b1.wait_turn(1);
+				if *o == 0 {
+					let t = h.time();
+					reads_ref.push((t.ticks, t.fraction.to_bits()));
+				} else {
+					h.stop();
+				}
+				b1.done_step();
+			}
+		});
+	});
+	*BATON.lock().unwrap() = None;
+	let timed_out = baton.st.lock().unwrap().2;
+	if timed_out {
+		return None;
+	}
+	let t = handle.time();
+	Some(((t.ticks, t.fraction.to_bits()), reads))
+}
+fn time_after(frames: &[usize], j: usize) -> (u64, u64) {
+	let total: usize = frames[..=j].iter().sum();
+	let t = 8.0 * total as f64 / 512.0;
+	(t.floor() as u64, (t - t.floor()).to_bits())
+}
+fn interleavings(na: usize, nh: usize, cur: &mut Vec<u8>, out: &mut Vec<Vec<u8>>) {
+	if na == 0 && nh == 0 {
+		out.push(cur.clone());
+		return;
+	}
+	if na > 0 {
+		cur.push(0);
+		interleavings(na - 1, nh, cur, out);
+		cur.pop();
+	}
+	if nh > 0 {
+		cur.push(1);
+		interleavings(na, nh - 1, cur, out);
+		cur.pop();
+	}
+}
+fn schedule_case(s: &mut Session, frames: &[usize], prog: &[u8], sched: &[u8], kind: &str) {
+	let pubs: Vec<(u64, u64)> = (0..frames.len()).map(|j| time_after(frames, j)).collect();
+	let term = format!(
+		"CSched [{}] [{}] [{}]",
+		pubs.iter().map(|(a, b)| format!("({}, {})", a, b)).collect::<Vec<_>>().join("; "),
+		prog.iter().map(|x| x.to_string()).collect::<Vec<_>>().join("; "),
+		sched.iter().map(|x| x.to_string()).collect::<Vec<_>>().join("; ")
+	);
+	let Some((words, reads)) = replay_schedule(frames, prog, sched) else {
+		s.fail(term, "schedule replay timed out: the real code did not pass the yield points the model's steps assume".into(), None);
+		return;
+	};
+	let flags = clean_flags(frames.len(), prog, sched);
+	let mut obs = vec![words.0 as i128, words.1 as i128];
+	for (k, r) in reads.iter().enumerate() {
+		obs.extend([r.0 as i128, r.1 as i128, *flags.get(k).unwrap_or(&-2)]);
+	}
+	s.case(kind, term.clone(), &obs, Some(key_of(&term)));
+	// the property on the implementation: every read is a time the clock had; successive reads of the running clock never go backwards
+	let had = |r: &(u64, u64)| *r == (0, 0) || pubs.contains(r);
+	let has_stop = prog.contains(&1);
+	let mut prev: Option<(u64, u64)> = None;
+	for (k, r) in reads.iter().enumerate() {
+		let as_time = |x: &(u64, u64)| x.0 as f64 + f64::from_bits(x.1);
+		if !had(r) {
+			s.fail(
+				term.clone(),
+				format!(
+					"time() call {k} returned ({}, {:?}), a time the clock never had (published: (0, 0.0), {})",
+					r.0,
+					f64::from_bits(r.1),
+					pubs.iter().map(|p| format!("({}, {:?})", p.0, f64::from_bits(p.1))).collect::<Vec<_>>().join(", ")
+				),
+				Some("clock_time_torn_read"),
+			);
+		} else if flags.get(k).copied().unwrap_or(-1) >= 0 {
+			// a read that overlapped no publication must be the latest published time
+			let n = flags[k] as usize;
+			let want = if n == 0 { (0, 0) } else { pubs[n - 1] };
+			if *r != want && !has_stop {
+				s.fail(term.clone(), format!("time() call {k} overlapped no publication but returned {:?} instead of the latest published time {:?}", r, want), None);
+			}
+		}
+		if let Some(p) = prev {
+			if !has_stop && as_time(r) < as_time(&p) {
+				s.fail(
+					term.clone(),
+					format!("successive time() calls went backwards while the clock runs: {:?} then {:?}", as_time(&p), as_time(r)),
+					if flags.get(k).copied().unwrap_or(-1) >= 0 && flags.get(k - 1).copied().unwrap_or(-1) >= 0 { None } else { Some("clock_time_torn_read") },
+				);
+			}
+		}
+		prev = Some(*r);
+	}
+}
+fn schedule_cases(s: &mut Session, r: &mut Rng, thorough: bool) {
+	install_hook();
+	// the model's witnesses (Props.v torn_read_refuted, torn_read_ahead_refuted, stop_store_race_refuted)
+	schedule_case(s, &[48, 32], &[0, 0], &[0, 0, 1, 1, 1, 0, 0, 1], "schedule_witness");
+	schedule_case(s, &[48, 32], &[0, 0], &[0, 0, 0, 1, 1, 0, 1, 1], "schedule_witness");
+	schedule_case(s, &[368], &[1, 0], &[0, 1, 1, 0, 1, 1], "schedule_witness");
+	// exhaustive: every interleaving of 2 publications with 2 reads, 2 with 3, 3 with 2
+	for (np, nr) in [(2usize, 2usize), (2, 3), (3, 2)] {
+		let mut all = vec![];
+		interleavings(2 * np, 2 * nr, &mut vec![], &mut all);
+		let frames: Vec<usize> = [48usize, 32, 40][..np].to_vec();
+		for sched in &all {
+			schedule_case(s, &frames, &vec![0; nr], sched, "schedule_exhaustive");
+		}
+	}
+	// sampled: larger programs
+	for _ in 0..(if thorough { 3000 } else { 300 }) {
+		let np = r.range(2, 5) as usize;
+		let nr = r.range(2, 5) as usize;
+		let frames: Vec<usize> = (0..np).map(|_| 8 * (r.below(12) + 1) as usize).collect();
+		let mut sched = vec![];
+		let (mut a, mut h) = (2 * np, 2 * nr);
+		while a + h > 0 {
+			if h == 0 || (a > 0 && r.chance(1, 2)) {
+				sched.push(0);
+				a -= 1;
+			} else {
+				sched.push(1);
+				h -= 1;
+			}
+		}
+		schedule_case(s, &frames, &vec![0; nr], &sched, "schedule_sampled");
+	}
+	kira::verif::set_yield_hook(None);
+}
+
 pub fn run(args: &Args) {
 	let mut rng = Rng::new(args.seed ^ 0xC05);
 	let n: u64 = (if args.thorough { 4000 } else { 500 }) * args.budget_mul;
@@ -866,6 +1112,7 @@ pub fn run(args: &Args) {
 	for _ in 0..(n / 50).max(3) {
 		monitor_self_reference(&mut s, &mut rng);
 	}
+	schedule_cases(&mut s, &mut rng, args.thorough);
 	// last: each of these leaves a spinning thread behind
 	f7_cases(&mut s);
 	s.finish();
